@@ -437,7 +437,7 @@ func mutate(rt *rapid.T, b *built) (raw []byte, supplied int64, labels []string)
 	rawOverride := []byte(nil)
 	for m := 0; m < nm; m++ {
 		lbl := fmt.Sprintf("m%d", m)
-		op := rapid.IntRange(0, 11).Draw(rt, lbl+".op")
+		op := rapid.IntRange(0, 13).Draw(rt, lbl+".op")
 		switch op {
 		case 0: // replace a signed field, then re-sign so the signature still verifies
 			i := rapid.IntRange(0, sigStart-1).Draw(rt, lbl+".i")
@@ -563,6 +563,45 @@ func mutate(rt *rapid.T, b *built) (raw []byte, supplied int64, labels []string)
 			if n == 0 {
 				rawOverride = append(append(append([]byte{}, b.prefix...), append([]byte{0xf7 + byte(kk)}, lb...)...), payload...)
 				labels = append(labels, "mut:noncanonical-length")
+			}
+		case 11: // malleated signature: S -> n-S, with or without the matching parity flip of V
+			if len(b.items) >= sigStart+3 && !b.items[sigStart].IsList && !b.items[sigStart+2].IsList {
+				sv := new(big.Int).SetBytes(b.items[sigStart+2].Str)
+				if secp.ValidScalar(sv) {
+					b.items[sigStart+2] = rlpref.Int(new(big.Int).Sub(secp.N, sv))
+					if rapid.Bool().Draw(rt, lbl+".flipV") {
+						cur := new(big.Int).SetBytes(b.items[sigStart].Str)
+						for par := uint(0); par <= 1; par++ {
+							if cur.Cmp(txmodel.V(b.mode, b.chain, par)) == 0 {
+								b.items[sigStart] = rlpref.Int(txmodel.V(b.mode, b.chain, par^1))
+								break
+							}
+						}
+						labels = append(labels, "mut:high-S-twin")
+					} else {
+						labels = append(labels, "mut:high-S-same-V")
+					}
+				}
+			}
+		case 12: // type 2: odd shapes in the chain-id slot, re-signed, typically offered for chain id 0
+			if b.mode == txmodel.ModeEIP1559 && len(b.items) >= 9 {
+				switch rapid.IntRange(0, 4).Draw(rt, lbl+".cshape") {
+				case 0:
+					b.items[0] = rlpref.L()
+				case 1:
+					b.items[0] = rlpref.L(rlpref.S([]byte{1}))
+				case 2:
+					b.items[0] = rlpref.S([]byte{0})
+				case 3:
+					b.items[0] = rlpref.S(append([]byte{0}, big.NewInt(b.chain).Bytes()...))
+				default:
+					b.items[0] = rlpref.L(rlpref.S(nil))
+				}
+				b.resign()
+				if rapid.IntRange(0, 2).Draw(rt, lbl+".zero") != 0 {
+					supplied = 0
+				}
+				labels = append(labels, "mut:chainid-slot-shape+resigned")
 			}
 		default: // switch the form under the same signature elements (legacy <-> 1559 confusion)
 			if b.mode == txmodel.ModeEIP1559 {
